@@ -95,13 +95,6 @@ Definition ends_with_symbol (b : bstate) : bool :=
   | _ => false
   end.
 
-(* `level > limit` for an optional limit *)
-Definition over (o : option nat) (n : nat) : bool :=
-  match o with Some x => Nat.ltb x n | None => false end.
-
-(* parser/query_parser.go: maxNestingDepth (the driver compares it with the exported constant) *)
-Definition max_nesting_depth : nat := 100 * 100.
-
 Inductive builder :=
 | BKw (sens : bool) (b : bstate)          (* keywordTokenBuilder *)
 | BTx (sens : bool) (b : bstate)          (* textTokenBuilder *)
